@@ -8,6 +8,7 @@ import (
 	"github.com/ethereum/go-ethereum/ethdb"
 	"github.com/holiman/uint256"
 	ctrlertypes "github.com/rigochain/rigo-go/ctrlers/types"
+	"github.com/rigochain/rigo-go/libs/verifhook"
 	types2 "github.com/rigochain/rigo-go/types"
 	"github.com/rigochain/rigo-go/types/bytes"
 	tmlog "github.com/tendermint/tendermint/libs/log"
@@ -63,6 +64,7 @@ func (s *StateDBWrapper) Finish() {
 		acct.SetNonce(nonce)
 
 		_ = s.acctHandler.SetAccountCommittable(acct, s.exec)
+		verifhook.Trace("syncout", addr[:], 0)
 
 		//s.logger.Debug("Finish", "address", acct.Address, "nonce", acct.Nonce, "balance", acct.Balance.Dec(), "snap", v)
 	}
@@ -197,6 +199,7 @@ func (s *StateDBWrapper) addAccessedObjAddr(addr common.Address) {
 			stateObject.SetBalance(rigoAcct.Balance.ToBig())
 
 			s.accessedObjAddrs[addr] = s.snapshot + 1
+			verifhook.Trace("syncin", addr[:], s.snapshot+1)
 
 			//s.logger.Debug("addAccessedObjAddr", "address", rigoAcct.Address, "nonce", rigoAcct.Nonce, "balance", rigoAcct.Balance.Dec(), "snap", s.snapshot+1)
 		}
@@ -208,6 +211,7 @@ func (s *StateDBWrapper) AddSlotToAccessList(addr common.Address, slot common.Ha
 }
 
 func (s *StateDBWrapper) RevertToSnapshot(revid int) {
+	verifhook.Trace("revert", nil, revid)
 	s.revertAccessedObjAddr(revid)
 	s.StateDB.RevertToSnapshot(revid)
 }
@@ -222,12 +226,14 @@ func (s *StateDBWrapper) revertAccessedObjAddr(snapshot int) {
 	}
 
 	for _, addr := range revertAddrs {
+		verifhook.Trace("unsync", addr[:], snapshot)
 		delete(s.accessedObjAddrs, addr)
 	}
 }
 
 func (s *StateDBWrapper) Snapshot() int {
 	s.snapshot = s.StateDB.Snapshot()
+	verifhook.Trace("snapshot", nil, s.snapshot)
 	return s.snapshot
 }
 
